@@ -507,7 +507,8 @@ class World:
         self.qfields = {}
         self.constants = {}
         self.alias = {}
-        self.mesh = None  # when set: terminals of any other mesh raise StructureMismatch in S
+        self.mesh = None  # when set: terminals of any other mesh raise StructureMismatch in S ...
+        self.others = {}  # ... unless that mesh has a world of its own here: {mesh: World}
         self.subst = {}  # terminal -> ("expr", image) | ("lin", [(scalar, terminal), ...]), see seval._substituted
         self.weight = _dyadic(rng, 0.125, 1.0, 64)
         self.seed_note = seed_note
